@@ -16,6 +16,7 @@ status
                                 the translated code is no longer provably the model: on SOME input
                                 code and model may differ; the caller searches for a concrete one
 """
+import os
 import re
 import time
 
@@ -30,26 +31,41 @@ AREAS = {
         # the run's scratch directory, mapped to the logical path Shoot.Bridge
         # "targets": project files the bridge needs, built through the locked make
         "prims": ["GoPrims", "RetryPrims"],
-        "targets": ["Proofs/RetryProofs.vo"],
+        "targets": ["Base/Str.vo", "Proofs/RetryProofs.vo"],
         "property": "C20",
     },
     "rest": {
         "module": "RestGen",
         "bridge": "Bridge/RestBridge.v",
         "prims": ["GoPrims", "RestPrims"],
-        "targets": ["Proofs/RestRuntimeProofs.vo"],
+        "targets": ["Base/Str.vo", "Proofs/RestRuntimeProofs.vo"],
         "property": "C19",
+    },
+    "transfer": {
+        "module": "TransferGen",
+        "bridge": "Bridge/TransferBridge.v",
+        "prims": ["GoPrims", "StrFacts"],
+        "targets": ["Base/Str.vo", "Proofs/TransferProofs.vo"],
+        "property": "transfer (C02 C03 C05 C11 C13 C16 ...: every model that uses Model/Transfer.v)",
+    },
+    "filename": {
+        "module": "FileNameGen",
+        "bridge": "Bridge/FileNameBridge.v",
+        "prims": ["GoPrims", "StrFacts", "CliPrims"],
+        "targets": ["Base/Str.vo", "Model/Cli.vo"],
+        "property": "C16 (file_name / fix_path of Model/Cli.v; also used by C07 C08 C17)",
     },
     "enum": {
         "module": "EnumGen",
         "bridge": "Bridge/EnumBridge.v",
-        "prims": ["GoPrims", "EnumPrims"],
-        "targets": ["Model/Enum.vo"],
+        "prims": ["GoPrims", "EnumPrims", "EnumFacts"],
+        "targets": ["Base/Str.vo", "Model/Enum.vo"],
         "property": "C12",
     },
 }
 
 GEN_TIMEOUT = 120
+PRIMS_TIMEOUT = 600
 BRIDGE_TIMEOUT = 300
 
 
@@ -112,16 +128,33 @@ def translation_tie(run, area):
     bdir = run.scratch / ("bridge_" + area)
     bdir.mkdir(exist_ok=True)
     base = ["coqc", "-Q", str(lib.COQ), "Shoot", "-Q", str(bdir), "Shoot.Bridge", "-Q", str(gen), "ShootGen"]
+    # the files of coq/Bridge that do not depend on generated code are compiled once per content
+    # (their text, the earlier ones of the list, and the project .vo files the area builds on) and kept
+    # under .build/bridge-cache; a run copies them into its scratch directory
+    import hashlib
+    h = hashlib.sha256()
+    for tgt in spec["targets"]:
+        h.update((lib.COQ / tgt).read_bytes())
     for name in spec["prims"]:
         src = lib.COQ / "Bridge" / (name + ".v")
-        m = lib.FORBIDDEN.search(lib.strip_comments(src.read_text()))
+        txt = src.read_text()
+        m = lib.FORBIDDEN.search(lib.strip_comments(txt))
         if m:
             return res("unavailable: forbidden vernacular %r in %s" % (m.group(0), src.name), functions=info["functions"])
+        h.update(txt.encode())
+        cache = lib.BUILD / "bridge-cache" / (name + "-" + h.hexdigest()[:24] + ".vo")
         dst = bdir / (name + ".v")
-        dst.write_text(src.read_text())
-        rc, out, err = lib.sh(base + [str(dst)], cwd=gen, timeout=GEN_TIMEOUT)
+        dst.write_text(txt)
+        if cache.exists():
+            (bdir / (name + ".vo")).write_bytes(cache.read_bytes())
+            continue
+        rc, out, err = lib.sh(base + [str(dst)], cwd=gen, timeout=PRIMS_TIMEOUT)
         if rc != 0:
             raise lib.CheckBroken("translation tie: coqc %s failed: %s" % (src, (out + err)[-1500:]))
+        cache.parent.mkdir(parents=True, exist_ok=True)
+        tmp = cache.with_suffix(".tmp%d" % os.getpid())
+        tmp.write_bytes((bdir / (name + ".vo")).read_bytes())
+        os.replace(tmp, cache)
     rc, out, err = lib.sh(base + [str(genfile)], cwd=gen, timeout=GEN_TIMEOUT)
     if rc != 0:
         _, line, msg = _first_error(out + err)
